@@ -241,6 +241,30 @@ class Check:
                 else:
                     self.discharged = self.obligations
 
+    # ---- 3b. thorough tier: independent re-check of the compiled closure with coqchk
+    def coqchk(self):
+        self.coqchk_txt = ''
+        if self.tier != 'thorough' or not self.make_ok:
+            return
+        rc, out, err, dt = run(['coqchk', '-silent', '-o', '-Q', '.', 'Bfe', 'Bfe.props.' + self.prop], cwd=COQ, timeout=5400)
+        self.coqchk_s = dt
+        txt = out + err
+        m = re.search(r'CONTEXT SUMMARY.*', txt, flags=re.S)
+        self.coqchk_txt = ' '.join((m.group(0) if m else txt[-800:]).split())[:1500]
+        if rc != 0:
+            self.problems.append('coqchk rejected the compiled closure of props/%s.vo: %s' % (self.prop, self.coqchk_txt[-400:]))
+            return
+        ax = re.search(r'\* Axioms:(.*?)\* Constants/Inductives relying on type-in-type', txt, flags=re.S)
+        names = re.findall(r'([A-Za-z_][A-Za-z0-9_\.\']*)', ax.group(1)) if ax else []
+        names = [n for n in names if n not in ('none',)]
+        bad = [n for n in names if n not in AXIOM_WHITELIST and n.split('.')[-1] not in AXIOM_WHITELIST]
+        if bad:
+            self.problems.append('coqchk reports axioms outside the whitelist: ' + ', '.join(bad[:10]))
+        for sect in ('type-in-type', 'unsafe (co)fixpoints', 'positivity is assumed'):
+            mm = re.search(re.escape(sect) + r':\s*(\S+)', txt)
+            if mm and mm.group(1) != '<none>':
+                self.problems.append('coqchk: %s: %s' % (sect, mm.group(1)))
+
     # ---- 4. model executable
     def build_model(self):
         b = self.build
@@ -328,40 +352,41 @@ class Check:
         return out
 
     def run_driver(self, cases_path):
-        data = open(cases_path, errors='replace').read()
-        rc, out, err, dt = run([os.path.join(self.build, 'driver')], stdin=data, timeout=3600)
-        self.driver_s = dt
+        """Runs the extracted model over a cases file; returns the path of the result file."""
+        outp = cases_path + '.model'
+        t0 = time.time()
+        try:
+            with open(cases_path, 'rb') as fi, open(outp, 'wb') as fo:
+                p = subprocess.run([os.path.join(self.build, 'driver')], stdin=fi, stdout=fo, stderr=subprocess.PIPE,
+                                   timeout=self.meta.get('driver_timeout_s', 7200))
+            rc, err = p.returncode, p.stderr.decode('utf8', 'replace')
+        except subprocess.TimeoutExpired:
+            rc, err = 124, 'TIMEOUT'
+        self.driver_s = time.time() - t0
         if rc != 0:
-            self.problems.append('model driver failed: ' + (err or out)[-400:])
+            self.problems.append('model driver failed: ' + err[-400:])
             return None
-        return out
+        return outp
 
     # ---- 6. in-Coq sample
-    def coq_sample(self, cases, results):
-        """cases: list of (class, in_s, out_s); results: list of (agree, prop, kf, model_s)."""
-        k = self.meta.get('sample_size', 120)
+    def coq_sample(self, ev):
         max_sz = self.meta.get('sample_max_val_size', 6000)
-        idx = [i for i, c in enumerate(cases) if c[0].startswith('corpus:')][:40]
-        rest = [i for i in range(len(cases)) if i not in set(idx)]
-        if rest:
-            step = max(1, len(rest) // k)
-            idx += rest[::step][:k]
         chosen = []
-        for i in idx:
+        for (idx, cls, i, o, r) in ev['sample']:
             try:
-                vi, vo, vm = parse_val_s(cases[i][1]), parse_val_s(cases[i][2]), parse_val_s(results[i][3])
+                vi, vo, vm = parse_val_s(i), parse_val_s(o), parse_val_s(r[3])
             except Exception:
                 continue
             if val_size(vi) + val_size(vo) + val_size(vm) > max_sz:
                 continue
-            chosen.append((i, vi, vo, vm))
+            chosen.append((idx, i, r, vi, vo, vm))
         if not chosen:
             self.sample_n = 0
             return
         src = ['From Coq Require Import List ZArith.', 'Import ListNotations.', 'Open Scope Z_scope.',
                'From Bfe Require Import lib.Val run.%s.' % self.runname,
                'Definition cases : list (val * val * val) := [']
-        src.append(';\n'.join('  (%s, %s, %s)' % (coq_val(vi), coq_val(vo), coq_val(vm)) for _, vi, vo, vm in chosen))
+        src.append(';\n'.join('  (%s, %s, %s)' % (coq_val(vi), coq_val(vo), coq_val(vm)) for _, _, _, vi, vo, vm in chosen))
         src.append('].')
         src.append('Definition codes := Eval vm_compute in map (fun c => let \'(i, o, m) := c in '
                    'case_code run_%s agree_%s prop_%s kf_%s m (i, o)) cases.' % ((self.prop,) * 4))
@@ -377,12 +402,11 @@ class Check:
         nums = [int(x) for x in re.findall(r'-?\d+', m.group(1))] if m else []
         if len(nums) != len(chosen):
             self.machinery('in-Coq sample: could not parse %d results (got %d)' % (len(chosen), len(nums)))
-        for (i, _, _, _), code in zip(chosen, nums):
-            a, p, kf, _ = results[i]
-            want = a + 2 * p + 4 * kf
+        for (idx, i, r, _, _, _), code in zip(chosen, nums):
+            want = r[0] + 2 * r[1] + 4 * r[2]
             if code != want:
                 self.machinery('extracted model and in-Coq evaluation disagree on case %d (%s): coq=%d ocaml=%d'
-                               % (i, cases[i][1][:120], code, want))
+                               % (idx, i[:120], code, want))
         self.sample_n = len(chosen)
 
     def machinery(self, msg):
@@ -403,29 +427,86 @@ class Check:
                     kf[int(m.group(2))] = m.group(3)
         return kf
 
-    # ---- evaluate a cases file -> (cases, results)
-    def evaluate(self, cases_path):
-        model_out = self.run_driver(cases_path)
-        if model_out is None:
-            return None, None
-        cases = []
-        for ln in open(cases_path, errors='replace'):
-            ln = ln.rstrip('\n')
-            if not ln or ln[0] == '#':
-                continue
-            cls, rest = ln.split(' ', 1)
-            i, o = rest.split(' => ', 1)
-            cases.append((cls, i, o))
-        results = []
-        for ln in model_out.splitlines():
-            a, p, k, m = ln.split(' ', 3)
-            results.append((int(a), int(p), int(k), m))
-        if len(results) != len(cases):
-            self.machinery('driver returned %d results for %d cases' % (len(results), len(cases)))
-        return cases, results
+    # ---- evaluate a cases file, streaming (bounded memory)
+    def evaluate(self, cases_path, keep_all=False):
+        """Returns a dict: n, classes, distinct, nontriv, disagree_n, propfail_n, and bounded lists of
+        (idx, class, input, impl_obs, (agree, prop, kf, model_obs)): disagree, propfail (smallest inputs),
+        known (first per finding id), sample (corpus + evenly spaced), firsts (first case per class), all (if keep_all)."""
+        mp = self.run_driver(cases_path)
+        if mp is None:
+            return None
+        kfs = self.known_findings()
+        n_lines = 0
+        with open(cases_path, 'rb') as f:
+            for ln in f:
+                if ln[:1] not in (b'#', b'\n', b''):
+                    n_lines += 1
+        k = self.meta.get('sample_size', 120)
+        step = max(1, n_lines // k)
+        ev = {'n': 0, 'classes': {}, 'disagree_n': 0, 'propfail_n': 0, 'disagree': [], 'propfail': [], 'known': {},
+              'sample': [], 'firsts': [], 'all': []}
+        distinct, nontriv = set(), set()
+        seen_cls = set()
+        n_corpus_sample = 0
+        gen_i = 0
+        with open(cases_path, errors='replace') as fc, open(mp, errors='replace') as fm:
+            idx = -1
+            for ln in fc:
+                ln = ln.rstrip('\n')
+                if not ln or ln[0] == '#':
+                    continue
+                idx += 1
+                ml = fm.readline()
+                if not ml:
+                    self.machinery('driver returned fewer results than cases (%d)' % idx)
+                try:
+                    cls, rest = ln.split(' ', 1)
+                    i, o = rest.split(' => ', 1)
+                    a, p, kf, m = ml.rstrip('\n').split(' ', 3)
+                    r = (int(a), int(p), int(kf), m)
+                except ValueError:
+                    self.machinery('malformed case or result line %d: %s | %s' % (idx, ln[:200], ml[:200]))
+                rec = (idx, cls, i, o, r)
+                is_corpus = cls.startswith('corpus:')
+                hk = 'corpus' if is_corpus else cls
+                ev['classes'][hk] = ev['classes'].get(hk, 0) + 1
+                h = hashlib.sha1(i.encode()).digest()[:10]
+                distinct.add(h)
+                base = cls.split(':', 1)[-1] if is_corpus else cls
+                if not base.startswith('triv'):
+                    nontriv.add(h)
+                if keep_all:
+                    ev['all'].append(rec)
+                if is_corpus:
+                    if n_corpus_sample < 40:
+                        ev['sample'].append(rec)
+                        n_corpus_sample += 1
+                else:
+                    if gen_i % step == 0 and len(ev['sample']) < k + 40:
+                        ev['sample'].append(rec)
+                    gen_i += 1
+                if cls not in seen_cls and len(i) + len(o) < 1500 and len(ev['firsts']) < 8:
+                    seen_cls.add(cls)
+                    ev['firsts'].append(rec)
+                if not r[1]:
+                    if r[2] and r[2] in kfs:
+                        ev['known'].setdefault(r[2], rec)
+                    else:
+                        ev['propfail_n'] += 1
+                        ev['propfail'].append(rec)
+                        if len(ev['propfail']) > 200:
+                            ev['propfail'].sort(key=lambda x: len(x[2]))
+                            del ev['propfail'][50:]
+                if not r[0]:
+                    ev['disagree_n'] += 1
+                    if len(ev['disagree']) < 50:
+                        ev['disagree'].append(rec)
+            ev['n'] = idx + 1
+        ev['distinct'], ev['nontriv'] = len(distinct), len(nontriv)
+        return ev
 
     def shrink(self, exe, in_s, still_fails):
-        """Greedy batch shrinking of a failing input; still_fails(case,result)->bool."""
+        """Greedy batch shrinking of a failing input; still_fails(rec)->bool."""
         try:
             cur = parse_val_s(in_s)
         except Exception:
@@ -447,18 +528,20 @@ class Check:
             os.makedirs(cdir)
             open(os.path.join(cdir, 's.case'), 'w').write(''.join('s %s\n' % show_val(c) for c in uniq))
             out = os.path.join(self.build, 'shrink.txt')
+            if os.path.exists(out):
+                os.remove(out)
             rc, o, e, dt = run([exe, '-seed', str(self.seed), '-tier', self.tier, '-out', out, '-corpus', cdir, '-n', '0'],
                                cwd=os.path.join(ROOT, 'harness'), timeout=300)
             if rc != 0 or not os.path.exists(out):
                 break
             saved = list(self.problems)
-            cases, results = self.evaluate(out)
+            ev = self.evaluate(out, keep_all=True)
             self.problems = saved
-            if cases is None:
+            if ev is None or len(ev['all']) != len(uniq):
                 break
             nxt = None
-            for c, (cs, r) in zip(uniq, zip(cases, results)):
-                if still_fails(cs, r):
+            for c, rec in zip(uniq, ev['all']):
+                if still_fails(rec):
                     nxt = c
                     break
             if nxt is None:
@@ -471,9 +554,10 @@ class Check:
         self.hygiene()
         self.translate()
         self.prove()
+        self.coqchk()
         model_ok = self.build_model() if self.make_ok else False
         exe = self.build_harness()
-        cases = results = None
+        ev = None
         self.sample_n = 0
         if exe and replay:
             rp = json.load(open(replay))
@@ -483,106 +567,83 @@ class Check:
                 return 1
             out = os.path.join(self.build, 'replay.txt')
             rc, o, e, dt = run([exe, '-replay', inp, '-out', out], cwd=os.path.join(ROOT, 'harness'), timeout=600)
-            cases, results = self.evaluate(out) if model_ok else (None, None)
-            if cases:
-                (cls, i, o), (a, p, k, m) = cases[0], results[0]
+            ev = self.evaluate(out, keep_all=True) if model_ok else None
+            if ev and ev['all']:
+                (idx, cls, i, o, (a, p, k, m)) = ev['all'][0]
                 print('input : %s\nimpl  : %s\nmodel : %s\nagree=%d prop=%d known_finding_id=%d' % (i[:2000], o[:2000], m[:2000], a, p, k))
                 return 0 if (a and p) else 1
             return 1
         if exe and model_ok:
             cp = self.run_harness(exe)
             if cp:
-                cases, results = self.evaluate(cp)
-        return self.verdict(exe, cases, results)
+                ev = self.evaluate(cp)
+        return self.verdict(exe, ev)
 
-    def verdict(self, exe, cases, results):
+    def verdict(self, exe, ev):
         kfs = self.known_findings()
-        n = len(cases) if cases else 0
-        disagree, propfail, known_hit = [], [], {}
-        classes = {}
-        distinct = set()
-        nontriv = set()
-        if cases:
-            for idx, ((cls, i, o), (a, p, k, m)) in enumerate(zip(cases, results)):
-                base = cls.split(':', 1)[-1] if cls.startswith('corpus:') else cls
-                classes[cls if not cls.startswith('corpus:') else 'corpus'] = classes.get(cls if not cls.startswith('corpus:') else 'corpus', 0) + 1
-                h = hashlib.sha1(i.encode()).digest()[:10]
-                distinct.add(h)
-                if not base.startswith('triv'):
-                    nontriv.add(h)
-                if not p:
-                    if k and k in kfs:
-                        known_hit.setdefault(k, idx)
-                    else:
-                        propfail.append(idx)
-                if not a:
-                    disagree.append(idx)
-            self.coq_sample(cases, results)
-        if disagree:
-            self.problems.append('correspondence %s: implementation and model differ on %d of %d cases' % (self.harness, len(disagree), n))
+        n = ev['n'] if ev else 0
+        if ev:
+            self.coq_sample(ev)
+            if ev['disagree_n']:
+                self.problems.append('correspondence %s: implementation and model differ on %d of %d cases' % (self.harness, ev['disagree_n'], n))
+            if n == 0:
+                self.problems.append('harness produced no cases')
         violations = 0
-        replay_path = None
         os.makedirs(os.path.join(ROOT, 'replay'), exist_ok=True)
+        propfail = ev['propfail'] if ev else []
         if propfail or self.problems:
-            violations = max(1, len(propfail))
+            violations = max(1, ev['propfail_n'] if ev else 1)
             replay_path = os.path.join(ROOT, 'replay', '%s-%d.json' % (self.prop, self.seed))
             rp = {'property': self.prop, 'seed': self.seed, 'tier': self.tier, 'broken': self.problems,
                   'how_to_replay': './bin/check %s --replay %s' % (self.prop, os.path.relpath(replay_path, ROOT))}
             if propfail:
-                # smallest failing input, then shrink it
-                idx = min(propfail, key=lambda j: len(cases[j][1]))
-                cls, i, o = cases[idx]
+                rec = min(propfail, key=lambda x: len(x[2]))
+                idx, cls, i, o, r = rec
                 small = i
                 if exe and len(i) > 3:
                     try:
-                        small = self.shrink(exe, i, lambda cs, r: (not r[1]) and not (r[2] and r[2] in kfs))
+                        small = self.shrink(exe, i, lambda x: (not x[4][1]) and not (x[4][2] and x[4][2] in kfs))
                     except SystemExit:
                         raise
                     except Exception as ex:  # shrinking is best effort
                         log('shrink failed:', ex)
                 rp.update({'kind': 'failing-input', 'input': small, 'original_input': i if small != i else None,
-                           'class': cls, 'impl': o, 'model': results[idx][3], 'predicate': 'prop_' + self.prop,
-                           'predicate_value': False, 'failing_cases': len(propfail)})
+                           'class': cls, 'impl': o, 'model': r[3], 'predicate': 'prop_' + self.prop,
+                           'predicate_value': False, 'failing_cases': ev['propfail_n']})
                 json.dump(rp, open(replay_path, 'w'), indent=1)
                 print('VIOLATION property=%s replay=%s' % (self.prop, replay_path))
             else:
-                first = [{'class': cases[j][0], 'input': cases[j][1][:4000], 'impl': cases[j][2][:4000], 'model': results[j][3][:4000]}
-                         for j in disagree[:5]] if cases else []
+                first = [{'class': x[1], 'input': x[2][:4000], 'impl': x[3][:4000], 'model': x[4][3][:4000]}
+                         for x in (ev['disagree'][:5] if ev else [])]
                 rp.update({'kind': 'no-failing-input-found', 'disagreeing_cases': first})
                 if first:
-                    rp['input'] = cases[disagree[0]][1]
+                    rp['input'] = ev['disagree'][0][2]
                 json.dump(rp, open(replay_path, 'w'), indent=1)
                 print('VIOLATION property=%s replay=%s no-failing-input-found' % (self.prop, replay_path))
             for pr in self.problems:
                 log('  broken: ' + pr)
-        for k, idx in sorted(known_hit.items()):
+        known = ev['known'] if ev else {}
+        for k in sorted(known):
             print('KNOWN-FINDING: property=%s id=%d %s' % (self.prop, k, kfs[k]))
         for k in kfs:
-            if k not in known_hit and cases:
+            if k not in known and ev:
                 log('note: listed finding id=%d of %s did not manifest in this run' % (k, self.prop))
-        self.write_evidence(cases, results, classes, len(distinct), len(nontriv), violations, known_hit, n)
+        self.write_evidence(ev, violations)
         return 1 if violations else 0
 
-    def write_evidence(self, cases, results, classes, distinct, nontriv, violations, known_hit, n):
-        samples = []
-        if cases:
-            seen_cls = set()
-            for (cls, i, o), r in zip(cases, results):
-                if cls not in seen_cls and len(i) + len(o) < 1500:
-                    seen_cls.add(cls)
-                    samples.append('%s %s => %s' % (cls, i, o))
-                if len(samples) >= 8:
-                    break
+    def write_evidence(self, ev, violations):
+        samples = ['%s %s => %s' % (x[1], x[2], x[3]) for x in (ev['firsts'] if ev else [])]
         if not samples:
             samples = ['(no case was executed: see violations / broken)']
+        n = ev['n'] if ev else 0
         m = self.meta
         tb = ['Coq 8.16.1 kernel (coqc) incl. vm_compute; no native_compute',
               'axioms reported by Print Assumptions: ' + (', '.join(self.axioms) if self.axioms else 'none (closed under the global context)'),
               'extraction: Coq Extraction + ExtrOcamlBasic only (bool/option/unit/list/prod/sumbool/sumor, andb/orb inlined); nat/positive/N/Z stay inductive; OCaml 4.13.1',
-              'ocaml/driver.ml (hand-written line protocol), cross-checked by the in-Coq vm_compute sample',
+              'ocaml/driver.ml (hand-written generic line protocol), cross-checked by the in-Coq vm_compute sample',
               'Go harness harness/cmd/%s + hooks injected with go build -tags verif -overlay (generators, canonicalisation)' % self.harness,
               'lib/vpcheck.py (comparison, verdict)'] + m.get('trusted_extra', [])
-        ev = {
+        evd = {
             'property_id': self.prop, 'tier': self.tier, 'seed': self.seed, 'level': 'proof',
             'coverage': {
                 'obligations': self.obligations, 'discharged': self.discharged,
@@ -590,23 +651,24 @@ class Check:
                 'trusted_base': tb,
                 'theorems': self.theorems,
                 'print_assumptions': self.assumptions_txt[-1500:],
-                'evaluations': n, 'distinct_nontrivial': nontriv, 'distinct_inputs': distinct,
+                'coqchk': getattr(self, 'coqchk_txt', '') or 'not run in this tier (thorough only)',
+                'evaluations': n, 'distinct_nontrivial': ev['nontriv'] if ev else 0, 'distinct_inputs': ev['distinct'] if ev else 0,
                 'rule': m.get('rule', 'cases from harness/cmd/%s (seeded splitmix64) plus corpus; distinct by sha1 of the input; non-trivial = class label not starting with triv' % self.harness),
                 'samples': samples,
-                'histogram': classes,
+                'histogram': ev['classes'] if ev else {},
                 'traces_validated_against_impl': n,
                 'vm_compute_sample': self.sample_n,
-                'known_findings_manifested': sorted(known_hit.keys()),
+                'known_findings_manifested': sorted(ev['known'].keys()) if ev else [],
                 'broken': self.problems,
                 'timing_s': {'make': round(getattr(self, 'make_s', 0), 1), 'go_build': round(getattr(self, 'go_build_s', 0), 1),
                              'harness': round(getattr(self, 'harness_s', 0), 1), 'driver': round(getattr(self, 'driver_s', 0), 1),
-                             'coq_sample': round(getattr(self, 'sample_s', 0), 1)},
+                             'coq_sample': round(getattr(self, 'sample_s', 0), 1), 'coqchk': round(getattr(self, 'coqchk_s', 0), 1)},
             },
             'assumptions': m.get('assumptions', []),
             'wall_s': round(time.time() - self.t0, 1),
             'violations': violations,
         }
-        json.dump(ev, open(os.path.join(ROOT, 'evidence', self.prop + '.json'), 'w'), indent=1)
+        json.dump(evd, open(os.path.join(ROOT, 'evidence', self.prop + '.json'), 'w'), indent=1)
 
 
 def setup_all():
